@@ -770,8 +770,11 @@ def shards(tier: str, seed: int) -> list[dict[str, Any]]:
 def floors(tier: str) -> dict[str, int]:
     k = 1 if tier == "quick" else 10
     return {
+        # calibrated at ~40-50 % of what the unchanged tree yields (quick: 977 k calls,
+        # 438 k cases; thorough: 12.2 M calls, 1.36 M cases); the audit / content floors
+        # are below what remains once absolute names are refused (6.4 k / 73 k opens)
         "evaluations": 400_000 * k,
-        "distinct_nontrivial": 200_000 * k,
+        "distinct_nontrivial": 200_000 if tier == "quick" else 700_000,
         "loader_calls": 400_000 * k,
         "audit_open_events": 3_000 * k,
         "audit_open_inside_root": 3_000 * k,
